@@ -307,6 +307,12 @@ func (cs *autoGrowingCallFrameStack) Sp() int {
 func (cs *autoGrowingCallFrameStack) SetSp(sp int) {
 	desiredSegIdx := segIdx(sp / FramesPerSegment)
 	desiredFramesInLastSeg := uint8(sp % FramesPerSegment)
+	if desiredFramesInLastSeg == 0 && desiredSegIdx > 0 {
+		// a depth that is a multiple of the segment size is a full segment (the form Push leaves behind), not
+		// an empty next one: that segment may not exist, and setting segSp to 0 in the current one drops its frames
+		desiredSegIdx--
+		desiredFramesInLastSeg = FramesPerSegment
+	}
 	for {
 		if cs.segIdx <= desiredSegIdx {
 			break
